@@ -100,20 +100,35 @@ def ladder(ctx, fam, ns, fwd, bwd):
                 ctx.violation('FirstOrderConvergence', {'family': 'convergence', 'action': what, 'case': name, 'n': list(ns),
                                                         'errors': errs, 'detail': 'error does not decrease under refinement (ratio > %g)' % limit})
                 return
-    judge(errs_code_f, 'to_fourier', 0.75)
-    judge(errs_spec_f, 'spec.forward', 0.75)
-    if smooth and 'yukawa' not in name:
-        judge(errs_code_b, 'to_real', 0.75)
-    # bounded by a constant times dr: err/dr must not grow along the ladder (it converges to the
-    # first-order coefficient from below on the pre-asymptotic coarse grids: slack 1.5)
-    C = errs_code_f[0] / (rmax / ns[0])
-    for n, e in zip(ns, errs_code_f):
-        if e > 1.5 * C * (rmax / n) + 1e-9 * scale:
-            ctx.violation('ErrorBoundedByDr', {'family': 'convergence', 'action': 'to_fourier', 'case': name, 'n': n,
-                                               'errors': errs_code_f, 'detail': 'error/dr at fixed k grows under refinement'})
-            break
-    # k -> 0: the lowest-k value tends to the closed form at that k (-> the volume integral)
-    judge(errs_low, 'to_fourier(k_min)', 0.75)
+    if smooth:
+        judge(errs_code_f, 'to_fourier', 0.75)
+        judge(errs_spec_f, 'spec.forward', 0.75)
+        if 'yukawa' not in name:
+            judge(errs_code_b, 'to_real', 0.75)
+        # bounded by a constant times dr: err/dr must not grow along the ladder (it converges to the
+        # first-order coefficient from below on the pre-asymptotic coarse grids: slack 1.5)
+        C = errs_code_f[0] / (rmax / ns[0])
+        for n, e in zip(ns, errs_code_f):
+            if e > 1.5 * C * (rmax / n) + 1e-9 * scale:
+                ctx.violation('ErrorBoundedByDr', {'family': 'convergence', 'action': 'to_fourier', 'case': name, 'n': n,
+                                                   'errors': errs_code_f, 'detail': 'error/dr at fixed k grows under refinement'})
+                break
+        # k -> 0: the lowest-k value tends to the closed form at that k (-> the volume integral)
+        judge(errs_low, 'to_fourier(k_min)', 0.75)
+    else:
+        # a discontinuous function (sphere of radius R): the Riemann sum misplaces at most the one cell that holds the
+        # jump, so |error| <= 4 pi (R + dr)^2 dr (+ the smooth O(dr) part, slack 1.5); the error is NOT monotone under
+        # halving - it depends on where the jump falls inside its cell - so only the envelope and the overall
+        # decrease (finest vs coarsest level) are judged
+        Rs = float(name.split('=')[1])
+        for errs, what in ((errs_code_f, 'to_fourier'), (errs_spec_f, 'spec.forward'), (errs_low, 'to_fourier(k_min)')):
+            for n, e in zip(ns, errs):
+                dr = rmax / n
+                if e > 1.5 * 4 * math.pi * (Rs + dr) ** 2 * dr + 1e-9 * scale:
+                    ctx.violation('ErrorBoundedByDr', {'family': 'convergence', 'action': what, 'case': name, 'n': n, 'errors': errs,
+                                                       'bound': 1.5 * 4 * math.pi * (Rs + dr) ** 2 * dr,
+                                                       'detail': 'error exceeds the one-cell bound 4 pi (R+dr)^2 dr of a discontinuous integrand'})
+                    break
     return rec
 
 
